@@ -334,11 +334,11 @@ fn lens_for(rng: &mut Rng, nd: usize, lane_max: usize, other_max: usize, allow_z
     let lo = if allow_zero && rng.chance(1, 12) { 0 } else { 1 };
     // a few long lanes in every tier: worst-case chains, round caps and size
     // thresholds inside the library (64, 128, 512, 1024 ...) are only reachable there
-    let long_len = if rng.chance(1, if thorough { 60000 } else { 20000 }) {
+    let long_len = if rng.chance(1, if thorough { 60000 } else { 12000 }) {
         // a huge lane: recursion budgets, sampling schemes and counters of a few thousand
         2048 + rng.below(if thorough { 30000 } else { 11000 })
     } else if rng.chance(1, 300) {
-        512 + rng.below(1100)
+        512 + rng.below(2100)
     } else if rng.chance(1, 40) {
         64 + rng.below(257)
     } else if rng.chance(1, 16) {
@@ -363,7 +363,7 @@ fn lens_for(rng: &mut Rng, nd: usize, lane_max: usize, other_max: usize, allow_z
                 long_len
             } else if allow_zero && rng.chance(1, 15) {
                 0
-            } else if long_len >= 512 && rng.chance(1, 3) {
+            } else if long_len >= 512 && rng.chance(1, 2) {
                 2
             } else {
                 1 + rng.below(other_cap)
@@ -518,7 +518,11 @@ fn rearrange(rng: &mut Rng, scn: &mut Scenario) {
         }
     };
     let sort_asc = |d: &mut Vec<i64>| d.sort_by(|a, b| key(*a).partial_cmp(&key(*b)).unwrap_or(std::cmp::Ordering::Equal));
-    match rng.below(24) {
+    // several long sibling lanes: a constant lane among them is worth trying often
+    let vs = scn.view_shape();
+    let long_siblings = vs.len() >= 2 && vs.iter().any(|&l| l >= 500) && vs.iter().product::<usize>() >= 2 * vs.iter().copied().max().unwrap_or(0);
+    let choice = if long_siblings && rng.chance(1, 2) { 5 } else { rng.below(24) };
+    match choice {
         0 => sort_asc(&mut scn.data),
         1 => {
             sort_asc(&mut scn.data);
